@@ -877,6 +877,13 @@ class TreeTransform(Generic[TreeFnT]):
           'Cannot chain a transform with conflicting agg_output_keys'
           f' got {self.agg_output_keys=} and {child.agg_output_keys=}.'
       )
+    if self.agg_fns and child.fns:
+      # Fusing would run the operators of the child before this aggregation.
+      raise ValueError(
+          'Aggregation has to be the last node, cannot fuse the operators of'
+          f' "{child.name}" behind the aggregation of a transform of the same'
+          ' name, use different names to chain them.'
+      )
     return self.maybe_replace(
         fns=self.fns + child.fns,
         agg_fns=self.agg_fns + child.agg_fns,
